@@ -27,8 +27,9 @@ class HangGuard(BaseException):
 
 
 class RecStream:
-    def __init__(self, data, events, maxcalls=None):
+    def __init__(self, data, events, maxcalls=None, bursts=()):
         self.data = bytes(data)
+        self.bursts = sorted(b for b in bursts if 0 < b < len(self.data))  # a read never crosses one of these positions
         self.pos = 0
         self.events = events
         self.calls = 0
@@ -39,18 +40,60 @@ class RecStream:
         if self.calls > self.maxcalls:
             raise HangGuard()
 
+    def _limit(self):
+        for b in self.bursts:
+            if b > self.pos:
+                return b
+        return len(self.data)
+
     def read(self, n):
         self._tick()
-        d = self.data[self.pos:self.pos + max(n, 0)]
+        d = self.data[self.pos:min(self.pos + max(n, 0), self._limit())]
         self.pos += len(d)
         self.events.append({"t": "read", "n": n, "got": len(d), "a": 0, "b": 0, "p": "", "fam": ""})
         return d
 
     def readline(self):
         self._tick()
-        j = self.data.find(b"\n", self.pos)
-        d = self.data[self.pos:] if j < 0 else self.data[self.pos:j + 1]
+        lim = self._limit()
+        j = self.data.find(b"\n", self.pos, lim)
+        d = self.data[self.pos:lim] if j < 0 else self.data[self.pos:j + 1]
         self.pos += len(d)
+        self.events.append({"t": "readline", "n": 0, "got": len(d), "a": 0, "b": 0, "p": "", "fam": ""})
+        return d
+
+
+import io as _io
+
+
+class RecBytesIO(_io.BytesIO):
+    """a real, seekable io.BytesIO that logs the read()/readline() calls made on it (the other stream kind users hand to the reader)"""
+
+    def __init__(self, data, events, maxcalls=None):
+        super().__init__(bytes(data))
+        self.data = bytes(data)
+        self.events = events
+        self.calls = 0
+        self.maxcalls = maxcalls if maxcalls is not None else 6 * len(data) + 64
+
+    @property
+    def pos(self):
+        return self.tell()
+
+    def _tick(self):
+        self.calls += 1
+        if self.calls > self.maxcalls:
+            raise HangGuard()
+
+    def read(self, n=-1):
+        self._tick()
+        d = super().read(n)
+        self.events.append({"t": "read", "n": n, "got": len(d), "a": 0, "b": 0, "p": "", "fam": ""})
+        return d
+
+    def readline(self, *a):
+        self._tick()
+        d = super().readline(*a)
         self.events.append({"t": "readline", "n": 0, "got": len(d), "a": 0, "b": 0, "p": "", "fam": ""})
         return d
 
@@ -107,12 +150,12 @@ def direct_parse(raw, msgmode=0, validate=1, pbf=1, labelmsm=1):
     return True, digest(m), ""
 
 
-def run_reader(data, filt=7, quit=1, parsing=True, handler=True, msgmode=0, validate=1, pbf=1, keep_reads=True, intern=None, labelmsm=1):
+def run_reader(data, filt=7, quit=1, parsing=True, handler=True, msgmode=0, validate=1, pbf=1, keep_reads=True, intern=None, labelmsm=1, bursts=(), kind="min"):
     """One complete iteration of UBXReader over `data`.  Returns the run record."""
     from pyubx2 import UBXReader
 
     events = []
-    stream = RecStream(data, events)
+    stream = RecBytesIO(data, events) if kind == "bytesio" and not bursts else RecStream(data, events, bursts=bursts)
     errs = []
 
     def on_error(err):
